@@ -16,7 +16,9 @@ import numpy as np
 
 from .. import exprs as E
 from .. import gen
-from .common import build_both, compare_errors, fl, mpf, mpf_s, net_oracle, sym_vs_lean, vec_close
+from .. import pymodel
+from .common import (Kept, as_params, as_t, as_x, build_both, compare_errors, fd_jacobian, fl, freeze, mpf, mpf_s, net_oracle,
+                     spec_oracle, sym_vs_lean, vec_close)
 
 PROP = "C03"
 LEAN = {"module": "Pygom.Props.C03",
@@ -38,13 +40,22 @@ H1 = mpf("1e-15")
 H2 = mpf("1e-10")
 
 
+N_POINTS = 3          # two rational points and one integer-valued point (handed over as ints / integer arrays)
+
+
 def make_cases(rng, tier, budget):
+    from .common import gen_forms
     cases = []
     for i in range(budget["models"]):
         r = random.Random(rng.getrandbits(64))
         spec, meta = gen.gen_model(r, min_events=1, routes=("event", "event_eq", "event_bare"))
-        pts = [gen.rand_point(r, meta) for _ in range(2)]
-        cases.append({"spec": spec, "meta": meta, "points": [{k: str(v) for k, v in p.items()} for p in pts]})
+        pts = [gen.rand_point(r, meta) for _ in range(N_POINTS - 1)] + [gen.rand_point(r, meta, integer=True)]
+        perm = list(range(len(meta["params"])))
+        r.shuffle(perm)
+        probe = {"forms": gen_forms(r, pts, meta["states"]), "reassign_form": r.choice(["list", "tuple", "ndarray", "dict_name", "pairs"]),
+                 "sibling": {"state_rev": r.random() < 0.4, "param_perm": perm, "derived_bump": r.random() < 0.5,
+                             "last_event_incremental": r.random() < 0.6}}
+        cases.append({"spec": spec, "meta": meta, "points": [{k: str(v) for k, v in p.items()} for p in pts], "probe": probe})
     return cases
 
 
@@ -80,115 +91,318 @@ def mat_close(A, B, rel=1e-7, abs_=1e-8):
     return A.shape == B.shape and np.all(np.abs(A - B) <= abs_ + rel * np.maximum(np.abs(A), np.abs(B)))
 
 
-def run_case(case):
-    spec, meta = case["spec"], case["meta"]
-    tags, mism, viol = [], [], []
-    lr, model, perr, stage = build_both(spec, derivs=True)
-    mism += compare_errors(lr, perr, stage)
-    if perr is not None or lr.get("err") is not None:
-        viol.append({"what": "well-formed model rejected: %s" % perr, "signature": "reject:%s" % perr, "detail": ""})
-        return {"nontrivial": False, "mismatches": mism, "violations": viol, "tags": ["rejected"]}
-    states = [str(s) for s in model.state_list]; params = [str(p) for p in model.param_list]
-    nS, nP, nE = len(states), len(params), len(lr["rates"])
-    tags += ["nS=%d" % nS, "nP=%d" % nP, "nE=%d" % nE, "square" if nS == nP else "asymmetric"]
-    for k in set(meta["kinds"]): tags.append("rate:" + k)
-    if not hasattr(model, "get_grad_grad_eqn") or not hasattr(model, "grad_grad"):
-        # the modelled source has the evaluator (Model.gradGradEqn, since the repair of C20-hessian-mixed-terms)
-        mism.append({"what": "evaluator missing: grad_grad", "detail": "the model has no get_grad_grad_eqn / grad_grad"})
-        return {"nontrivial": False, "mismatches": mism, "violations": viol, "tags": tags + ["evaluator-missing:grad_grad"]}
-    try:
-        J_s = model.get_jacobian_eqn(); G_s = model.get_grad_eqn(); GG_s = model.get_grad_grad_eqn()
-        DJ_s = model.get_diff_jacobian_eqn(); GJ_s = model.get_grad_jacobian_eqn()
-        TJ_s = model.get_TransitionJacobian(); TM_s = model.get_TransitionMean(); TV_s = model.get_TransitionVar()
-    except Exception as exc:
-        viol.append({"what": "symbolic derivative raised %s: %s" % (type(exc).__name__, str(exc)[:200]),
-                     "signature": "symbolic-raise:%s" % type(exc).__name__, "detail": ""})
-        return {"nontrivial": False, "mismatches": mism, "violations": viol, "tags": tags}
-    flat = lambda M: [M[i, j] for i in range(M.rows) for j in range(M.cols)]
-    lflat = lambda L: [e for row in L for e in row]
-    nzJ = nzG = nzGG = False
-    for pt in case["points"]:
-        env = {k: Fraction(v) for k, v in pt.items()}
-        # symbolic: sympy's derivatives against the verified differentiator
-        for name, S, L in (("get_jacobian_eqn", flat(J_s), lflat(lr["jac"])), ("get_grad_eqn", flat(G_s), lflat(lr["grad"])),
-                           ("get_diff_jacobian_eqn", flat(DJ_s), lflat(lr["djac"])),
-                           ("get_grad_jacobian_eqn", flat(GJ_s), lflat(lr["gjac"])),
-                           ("get_grad_grad_eqn", flat(GG_s), lflat(lr["ggrad"])),
-                           ("get_TransitionJacobian", flat(TJ_s), lflat(lr["tjac"])),
-                           ("get_TransitionMean", list(TM_s), lr["tmean"]), ("get_TransitionVar", list(TV_s), lr["tvar"])):
-            sym_vs_lean(S, L, env, name, mism, tags)
-        x = fl(env, states); th = fl(env, params); t = float(env["t"])
+EVALS = ("jacobian", "grad", "diff_jacobian", "grad_jacobian", "grad_grad", "transitionJacobian", "transitionMean", "transitionVar")
+TOL = {"jacobian": 1e-7, "grad": 1e-7, "diff_jacobian": 1e-6, "grad_jacobian": 1e-6, "grad_grad": 1e-6, "transitionJacobian": 1e-7,
+       "transitionMean": 1e-7, "transitionVar": 1e-7, "ode": 1e-9}
+HISTORY_LABELS = ("reassigned", "restored", "after-sibling", "after-caller-wrote-into-results")
+
+
+def oracle_all(meta, spec, env, states, params, nE):
+    """finite differences of the harness's own right-hand side / rate vector (no Lean, no sympy); may raise E.Undefined"""
+    nS, nP = len(states), len(params)
+    fo = lambda e_: f_oracle(meta, spec, e_)[0]
+    ao = lambda e_: f_oracle(meta, spec, e_)[2]
+    O = {}
+    O["jacobian"] = np.array([[float(v) for v in d1(fo, env, s)] for s in states]).T.reshape(nS, nS)      # [i][j] = d f_i / d x_j
+    O["grad"] = np.array([[float(v) for v in d1(fo, env, p)] for p in params]).T.reshape(nS, nP)
+    DJ_o = np.zeros((nS * nS, nS)); GJ_o = np.zeros((nS * nP, nS)); GG_o = np.zeros((nS * nP, nP))
+    for j, pj in enumerate(params):
+        for k, pk in enumerate(params):
+            dd = d2(fo, env, pj, pk)
+            for i in range(nS):
+                GG_o[i * nP + j, k] = float(dd[i])
+    for i, si in enumerate(states):
+        for j, sj in enumerate(states):
+            dd = d2(fo, env, si, sj)
+            for e_ in range(nS):
+                DJ_o[e_ * nS + i, j] = float(dd[e_])
+    for k, pk in enumerate(params):
+        for j, sj in enumerate(states):
+            dd = d2(fo, env, pk, sj)
+            for i in range(nS):
+                GJ_o[k * nS + i, j] = float(dd[i])
+    O["diff_jacobian"], O["grad_jacobian"], O["grad_grad"] = DJ_o, GJ_o, GG_o
+    f_o, V_o, a_o = f_oracle(meta, spec, env)
+    dA = np.array([[float(v) for v in d1(ao, env, s)] for s in states]).T.reshape(nE, nS)   # [i][k] = d a_i / d x_k
+    Vm = np.array([[float(v) for v in col] for col in V_o]).T.reshape(nS, nE)                # [k][j]
+    TJ_o = dA.dot(Vm)
+    a_f = np.array([float(v) for v in a_o])
+    O["transitionJacobian"] = TJ_o
+    O["transitionMean"] = TJ_o.dot(a_f); O["transitionVar"] = (TJ_o ** 2).dot(a_f)
+    O["ode"] = np.array([float(v) for v in f_o])
+    return O
+
+
+class Session(object):
+    """one live model instance: its Lean response, its finite-difference oracle, and every array it handed out.
+    `step` judges private copies of the results at once; `finish` judges the KEPT arrays after all later calls."""
+
+    def __init__(self, case, spec, meta, who="", partner=None, touch_env=None):
+        self.case, self.spec, self.meta, self.who = case, spec, meta, who
+        self.tags, self.mism, self.viol = [], [], []
+        self.kept = Kept()
+        self.steps = []
+        self.cache = {}
+        self.nz = {"J": False, "G": False, "GG": False}
+        self.dead = False
+        self.model = None
+        n_then = len(spec.get("then", []))
+        staged = partner is not None and n_then > 0 and all(o["op"] in pymodel.SETTER for o in spec["then"])
+        if not staged:
+            self.lr, self.model, self.perr, self.stage = build_both(spec, derivs=True)
+            return
+        # staged construction (see C01): constructor keywords, every evaluator compiled, then the incremental operations
+        # one at a time with ANOTHER live instance evaluating before this one does
+        from .common import lean_assemble
+        self.lr = lean_assemble(spec, True)
+        self.perr, self.stage = None, None
+        self.tags.append("staged_build")
         try:
-            model.parameters = th
-            J_n = np.asarray(model.jacobian(x, t), float).reshape(nS, nS)
-            G_n = np.asarray(model.grad(x, t), float).reshape(nS, nP)
-            DJ_n = np.asarray(model.diff_jacobian(x, t), float).reshape(nS * nS, nS)
-            GJ_n = np.asarray(model.grad_jacobian(x, t), float).reshape(nS * nP, nS)
-            GG_n = np.asarray(model.grad_grad(x, t), float)
-            if GG_n.shape != (nS * nP, nP):
-                viol.append({"what": "grad_grad(x,t) has shape %s, expected %s" % (GG_n.shape, (nS * nP, nP)),
-                             "signature": "grad_grad:shape" + (":nS=1" if nS == 1 else "") + (":nP=1" if nP == 1 else ""), "detail": json.dumps(pt)})
-                break
-            TJ_n = np.asarray(model.transitionJacobian(x, t), float).reshape(nE, nE)
-            TM_n = np.asarray(model.transitionMean(x, t), float).ravel()
-            TV_n = np.asarray(model.transitionVar(x, t), float).ravel()
+            self.model = pymodel.build(spec, upto=0)
+            self.touch(touch_env, 0)
+            for k in range(n_then):
+                pymodel.apply_then(self.model, spec["then"][k])
+                partner.touch(touch_env, None)
+                self.touch(touch_env, k + 1)
+            for g in ("get_ode_eqn", "get_StateChangeMatrix", "get_EventRateVector", "get_pureOdeVector"):
+                getattr(self.model, g)()
         except Exception as exc:
-            viol.append({"what": "derivative evaluator raised %s: %s" % (type(exc).__name__, str(exc)[:200]),
-                         "signature": "evaluator-raise:%s" % type(exc).__name__, "detail": json.dumps(pt)})
-            break
+            self.perr, self.stage = pymodel.err_enum(exc), "build"
+            self.model = None
+
+    def touch(self, env, upto):
+        """call every evaluator once (so that it is compiled for the model as it is now); jacobian and ode are judged
+        against the spec read up to operation `upto` (None = the complete model)"""
+        if self.model is None or env is None:
+            return
+        m = self.model
+        states = [str(s) for s in m.state_list]; params = [str(p) for p in m.param_list]
+        x = fl(env, states); t = float(env["t"])
         try:
-            # model (Lean expressions, harness interpreter)
-            Lv = lambda L: [[float(E.ev(e, env)) for e in row] for row in L]
-            J_l, G_l, DJ_l, GJ_l, TJ_l = Lv(lr["jac"]), Lv(lr["grad"]), Lv(lr["djac"]), Lv(lr["gjac"]), Lv(lr["tjac"])
-            GG_l = Lv(lr["ggrad"])
-            TM_l = [float(E.ev(e, env)) for e in lr["tmean"]]; TV_l = [float(E.ev(e, env)) for e in lr["tvar"]]
-            # oracle: finite differences of the harness's own right-hand side
-            fo = lambda e_: f_oracle(meta, spec, e_)[0]
-            ao = lambda e_: f_oracle(meta, spec, e_)[2]
-            J_o = np.array([[float(v) for v in d1(fo, env, s)] for s in states]).T            # [i][j] = d f_i / d x_j
-            G_o = np.array([[float(v) for v in d1(fo, env, p)] for p in params]).T.reshape(nS, nP)
-            DJ_o = np.zeros((nS * nS, nS)); GJ_o = np.zeros((nS * nP, nS)); GG_o = np.zeros((nS * nP, nP))
-            for j, pj in enumerate(params):
-                for k, pk in enumerate(params):
-                    dd = d2(fo, env, pj, pk)
-                    for i in range(nS):
-                        GG_o[i * nP + j, k] = float(dd[i])
-            for i, si in enumerate(states):
-                for j, sj in enumerate(states):
-                    dd = d2(fo, env, si, sj)
-                    for e_ in range(nS):
-                        DJ_o[e_ * nS + i, j] = float(dd[e_])
-            for k, pk in enumerate(params):
-                for j, sj in enumerate(states):
-                    dd = d2(fo, env, pk, sj)
-                    for i in range(nS):
-                        GJ_o[k * nS + i, j] = float(dd[i])
-            _, V_o, a_o = f_oracle(meta, spec, env)
-            dA = np.array([[float(v) for v in d1(ao, env, s)] for s in states]).T.reshape(nE, nS)   # [i][k] = d a_i / d x_k
-            Vm = np.array([[float(v) for v in col] for col in V_o]).T.reshape(nS, nE)                # [k][j]
-            TJ_o = dA.dot(Vm)
-            a_f = np.array([float(v) for v in a_o])
-            TM_o = TJ_o.dot(a_f); TV_o = (TJ_o ** 2).dot(a_f)
+            m.parameters = fl(env, params)
+        except Exception:
+            self.tags.append("touch:parameters-not-settable")
+            return
+        got = {}
+        for name in EVALS + ("ode",):
+            try:
+                got[name] = np.array(getattr(m, name)(x, t), dtype=float)
+            except Exception:
+                self.tags.append("touch:%s-raised" % name)
+        if "ode" not in got or "jacobian" not in got:
+            return
+        try:
+            fo = (lambda e_: net_oracle(self.meta, self.spec, e_)[0]) if upto is None else (lambda e_: spec_oracle(self.spec, states, e_, upto=upto)[0])
+            f_o = fo(env)
+            J_o = np.array([[float(v) for v in row] for row in fd_jacobian(fo, env, states)]).reshape(len(states), len(states))
+        except E.Undefined:
+            return
+        stage = "as built so far (constructor + %d incremental operations)" % upto if upto is not None else "after another instance was extended"
+        if not vec_close(got["ode"].ravel(), f_o):
+            self.viol.append({"what": self.who + "ode(x,t) of the model %s is not the described right-hand side" % stage, "signature": "staged:ode",
+                              "detail": "ode=%s expected=%s" % (got["ode"].ravel().tolist(), [mpf_s(v) for v in f_o])})
+        elif not mat_close(got["jacobian"].reshape(J_o.shape), J_o, rel=1e-7, abs_=1e-7):
+            self.viol.append({"what": self.who + "jacobian(x,t) of the model %s is not the derivative (finite-difference oracle)" % stage,
+                              "signature": "staged:jacobian:not-derivative",
+                              "detail": "got %s expected %s" % (got["jacobian"].tolist(), J_o.tolist())})
+
+    def open(self):
+        lr, model, spec, meta = self.lr, self.model, self.spec, self.meta
+        tags, mism, viol = self.tags, self.mism, self.viol
+        mism += compare_errors(lr, self.perr, self.stage)
+        if self.perr is not None or lr.get("err") is not None:
+            viol.append({"what": self.who + "well-formed model rejected: %s" % self.perr, "signature": "reject:%s" % self.perr, "detail": ""})
+            tags.append("rejected")
+            self.dead = True
+            return False
+        self.states = states = [str(s) for s in model.state_list]; self.params = params = [str(p) for p in model.param_list]
+        if states != meta["states"] or params != meta["params"]:
+            viol.append({"what": self.who + "declared names / order not kept: %s %s, declared %s %s" % (states, params, meta["states"], meta["params"]),
+                         "signature": "declared-names", "detail": ""})
+            self.dead = True
+            return False
+        self.nS, self.nP, self.nE = nS, nP, nE = len(states), len(params), len(lr["rates"])
+        tags += ["nS=%d" % nS, "nP=%d" % nP, "nE=%d" % nE, "square" if nS == nP else "asymmetric"]
+        for k in set(meta["kinds"]): tags.append("rate:" + k)
+        if not hasattr(model, "get_grad_grad_eqn") or not hasattr(model, "grad_grad"):
+            # the modelled source has the evaluator (Model.gradGradEqn, since the repair of C20-hessian-mixed-terms)
+            mism.append({"what": "evaluator missing: grad_grad", "detail": "the model has no get_grad_grad_eqn / grad_grad"})
+            tags.append("evaluator-missing:grad_grad")
+            self.dead = True
+            return False
+        try:
+            J_s = model.get_jacobian_eqn(); G_s = model.get_grad_eqn(); GG_s = model.get_grad_grad_eqn()
+            DJ_s = model.get_diff_jacobian_eqn(); GJ_s = model.get_grad_jacobian_eqn()
+            TJ_s = model.get_TransitionJacobian(); TM_s = model.get_TransitionMean(); TV_s = model.get_TransitionVar()
+        except Exception as exc:
+            viol.append({"what": self.who + "symbolic derivative raised %s: %s" % (type(exc).__name__, str(exc)[:200]),
+                         "signature": "symbolic-raise:%s" % type(exc).__name__, "detail": ""})
+            self.dead = True
+            return False
+        flat = lambda M: [M[i, j] for i in range(M.rows) for j in range(M.cols)]
+        lflat = lambda L: [e for row in L for e in row]
+        self.sym = (("get_jacobian_eqn", flat(J_s), lflat(lr["jac"])), ("get_grad_eqn", flat(G_s), lflat(lr["grad"])),
+                    ("get_diff_jacobian_eqn", flat(DJ_s), lflat(lr["djac"])),
+                    ("get_grad_jacobian_eqn", flat(GJ_s), lflat(lr["gjac"])),
+                    ("get_grad_grad_eqn", flat(GG_s), lflat(lr["ggrad"])),
+                    ("get_TransitionJacobian", flat(TJ_s), lflat(lr["tjac"])),
+                    ("get_TransitionMean", list(TM_s), lr["tmean"]), ("get_TransitionVar", list(TV_s), lr["tvar"]))
+        self.shape = {"jacobian": (nS, nS), "grad": (nS, nP), "diff_jacobian": (nS * nS, nS), "grad_jacobian": (nS * nP, nS),
+                      "grad_grad": (nS * nP, nP), "transitionJacobian": (nE, nE), "transitionMean": (nE,), "transitionVar": (nE,), "ode": (nS,)}
+        return True
+
+    def step(self, env, form, label, symbolic=False, set_params=True):
+        if self.dead:
+            return False
+        lr, model, meta, spec = self.lr, self.model, self.meta, self.spec
+        mism, viol, tags = self.mism, self.viol, self.tags
+        n0 = len(mism) + len(viol)
+        pt = {k: str(v) for k, v in env.items()}
+        if symbolic:
+            # sympy's derivatives against the verified differentiator
+            for name, S, L in self.sym:
+                sym_vs_lean(S, L, env, name, mism, tags)
+        x = as_x(env, self.states, form["x"]); t = as_t(env, form["t"])
+        tags.append("x:" + form["x"]); tags.append("t:" + form["t"])
+        first_row = len(self.kept.rows)
+        vals = {}
+        try:
+            if set_params:
+                th = as_params(env, self.params, form["p"])
+                fth = freeze(th)
+                model.parameters = th
+                tags.append("p:" + form["p"])
+                if freeze(th) != fth:
+                    viol.append({"what": self.who + "the object assigned to model.parameters was modified", "signature": "input-modified:parameters:" + form["p"],
+                                 "detail": json.dumps(pt)})
+            for name in EVALS + ("ode",):
+                v = self.kept.call(model, name, x, t, label)
+                if name == "grad_grad" and v.shape != self.shape[name]:
+                    viol.append({"what": self.who + "grad_grad(x,t) has shape %s, expected %s" % (v.shape, self.shape[name]),
+                                 "signature": "grad_grad:shape" + (":nS=1" if self.nS == 1 else "") + (":nP=1" if self.nP == 1 else ""), "detail": json.dumps(pt)})
+                    return False
+                vals[name] = v.reshape(self.shape[name])
+        except Exception as exc:
+            viol.append({"what": self.who + "derivative evaluator raised %s: %s" % (type(exc).__name__, str(exc)[:200]),
+                         "signature": "evaluator-raise:%s:x=%s,t=%s" % (type(exc).__name__, form["x"], form["t"]), "detail": json.dumps(pt)})
+            return False
+        key = json.dumps(pt, sort_keys=True)
+        try:
+            if key not in self.cache:
+                Lv = lambda L: np.array([[float(E.ev(e, env)) for e in row] for row in L], float)
+                Ln = {"jacobian": Lv(lr["jac"]), "grad": Lv(lr["grad"]), "diff_jacobian": Lv(lr["djac"]), "grad_jacobian": Lv(lr["gjac"]),
+                      "grad_grad": Lv(lr["ggrad"]), "transitionJacobian": Lv(lr["tjac"]),
+                      "transitionMean": np.array([float(E.ev(e, env)) for e in lr["tmean"]]), "transitionVar": np.array([float(E.ev(e, env)) for e in lr["tvar"]]),
+                      "ode": np.array([float(E.ev(e, env)) for e in lr["ode"]])}
+                self.cache[key] = (Ln, oracle_all(meta, spec, env, self.states, self.params, self.nE))
+            Ln, O = self.cache[key]
         except E.Undefined:
             tags.append("undefined_point")
-            continue
-        nzJ = nzJ or bool(np.any(np.abs(J_o) > 1e-9)); nzG = nzG or bool(np.any(np.abs(G_o) > 1e-9))
-        nzGG = nzGG or bool(np.any(np.abs(GG_o) > 1e-9))
-        for name, N, L in (("jacobian", J_n, J_l), ("grad", G_n, G_l), ("diff_jacobian", DJ_n, DJ_l), ("grad_jacobian", GJ_n, GJ_l),
-                           ("grad_grad", GG_n, GG_l),
-                           ("transitionJacobian", TJ_n, TJ_l), ("transitionMean", TM_n, TM_l), ("transitionVar", TV_n, TV_l)):
-            if not mat_close(N, np.asarray(L, float).reshape(np.asarray(N).shape), rel=1e-9, abs_=1e-10):
-                mism.append({"what": name + "(x,t)", "detail": "python %s lean %s at %s" % (np.asarray(N).tolist(), L, pt)})
-        for name, N, O, tol in (("jacobian", J_n, J_o, 1e-7), ("grad", G_n, G_o, 1e-7), ("diff_jacobian", DJ_n, DJ_o, 1e-6),
-                                ("grad_jacobian", GJ_n, GJ_o, 1e-6), ("grad_grad", GG_n, GG_o, 1e-6), ("transitionJacobian", TJ_n, TJ_o, 1e-7),
-                                ("transitionMean", TM_n, TM_o, 1e-7), ("transitionVar", TV_n, TV_o, 1e-7)):
-            if not mat_close(N, O, rel=tol, abs_=tol):
-                viol.append({"what": "%s(x,t) is not the derivative / definition (finite-difference oracle)" % name,
-                             "signature": "%s:not-derivative" % name,
-                             "detail": "got %s expected %s at %s" % (np.asarray(N).tolist(), np.asarray(O).tolist(), pt)})
-        if mism or viol:
-            break
-    if nzGG:
-        tags.append("grad_grad:non-zero")
-    return {"nontrivial": bool(nzJ and nzG), "mismatches": mism, "violations": viol, "tags": tags,
-            "sample": {"spec": spec, "point": case["points"][0]}}
+            return True
+        self.nz["J"] = self.nz["J"] or bool(np.any(np.abs(O["jacobian"]) > 1e-9)); self.nz["G"] = self.nz["G"] or bool(np.any(np.abs(O["grad"]) > 1e-9))
+        self.nz["GG"] = self.nz["GG"] or bool(np.any(np.abs(O["grad_grad"]) > 1e-9))
+        st = {"label": label, "pt": pt, "lean": Ln, "oracle": O, "first_row": first_row}
+        self.steps.append(st)
+        self.judge(st, vals, "")
+        return len(mism) + len(viol) == n0
+
+    def judge(self, st, vals, kind):
+        label, pt = st["label"], st["pt"]
+        pre = self.who + ("[%s] " % label) + ("KEPT result, looked at after the later calls: " if kind else "")
+        for name in EVALS + ("ode",):
+            N = vals[name]
+            if not kind:
+                L = st["lean"][name].reshape(N.shape)
+                if not mat_close(N, L, rel=1e-9, abs_=1e-10):
+                    self.mism.append({"what": name + "(x,t)", "detail": "python %s lean %s at %s" % (N.tolist(), L.tolist(), pt)})
+            O = st["oracle"][name].reshape(N.shape)
+            if not mat_close(N, O, rel=TOL[name], abs_=TOL[name]):
+                sgn = ("kept:" if kind else ("history:" if label in HISTORY_LABELS else "")) + ("%s:not-derivative" % name if name != "ode" else "ode:not-rhs")
+                self.viol.append({"what": pre + "%s(x,t) is not the derivative / definition (finite-difference oracle)" % name,
+                                  "signature": sgn, "detail": "got %s expected %s at %s" % (N.tolist(), O.tolist(), pt)})
+
+    def finish(self):
+        if self.dead or self.mism or self.viol:
+            return
+        for label, name in self.kept.input_changed:
+            self.viol.append({"what": self.who + "[%s] %s(x,t) modified the state vector / time it was given" % (label, name),
+                              "signature": "input-modified:%s" % name, "detail": ""})
+        changed = self.kept.changed()
+        if changed:
+            self.tags.append("kept_result_changed")
+        n_ev = len(EVALS) + 1
+        for st in self.steps:
+            rows = {r["name"]: r for r in self.kept.rows[st["first_row"]:st["first_row"] + n_ev]}
+            raw = {name: np.asarray(rows[name]["raw"], float).reshape(self.shape[name]) for name in EVALS + ("ode",)}
+            self.judge(st, raw, "kept")
+            if self.viol:
+                break
+        if changed and not self.viol:
+            label, name, now, was = changed[0]
+            self.viol.append({"what": self.who + "[%s] the array returned by %s(x,t) was changed by a later call" % (label, name),
+                              "signature": "kept:%s:array-overwritten" % name, "detail": "now %s, at the time of the call %s" % (now.tolist(), was.tolist())})
+        self.tags.append("kept_judged:%d" % len(self.steps))
+
+    def after_scribble(self, env, form, label):
+        if self.dead or self.mism or self.viol:
+            return
+        n = self.kept.scribble()
+        self.tags.append("scribbled" if n else "nothing_to_scribble")
+        self.kept = Kept()
+        self.step(env, form, label)
+
+
+def run_case(case):
+    spec, meta = case["spec"], case["meta"]
+    pts = [{k: Fraction(v) for k, v in p.items()} for p in case["points"]]
+    probe = case.get("probe") or {}
+    forms = probe.get("forms") or [{"x": "list", "t": "float", "p": "list"}] * len(pts)
+    A = Session(case, spec, meta)
+    B = None
+    ok = A.open()
+    if ok:
+        for k, env in enumerate(pts):
+            ok = A.step(env, forms[k], "point%d" % k, symbolic=True)
+            if not ok:
+                break
+    if ok and probe and len(pts) >= 2:
+        # history on one instance: (x, t) of point 0 with the parameter values of point 1, then the first values again
+        env_r = dict(pts[0]); env_r.update({p: pts[1][p] for p in A.params})
+        ok = A.step(env_r, dict(forms[0], p=probe.get("reassign_form", "list")), "reassigned") and \
+            A.step(pts[0], dict(forms[0], p=forms[1]["p"]), "restored")
+    if ok and probe.get("sibling"):
+        # a second live instance under the same names: parameter / state declaration permuted, derived parameter
+        # redefined, last event entered incrementally with the first instance evaluating in between
+        sb = probe["sibling"]
+        s2, m2, changed = gen.sibling_spec(spec, meta, state_rev=sb.get("state_rev", False), param_perm=sb.get("param_perm"),
+                                           derived_bump=sb.get("derived_bump", False), last_event_incremental=sb.get("last_event_incremental", False))
+        if changed:
+            A.tags.append("sibling_checked")
+            for c in changed:
+                A.tags.append("sibling:" + c)
+            B = Session(case, s2, m2, who="second model with the same names: ", partner=A, touch_env=pts[0])
+            if B.open():
+                okB = B.step(pts[0], forms[0], "point0", symbolic=True)
+                # the first instance again, WITHOUT touching its parameters (they are still those of point 0)
+                env_as = dict(pts[1]); env_as.update({p: pts[0][p] for p in A.params})
+                okA = A.step(env_as, forms[1], "after-sibling", set_params=False) if okB else False
+                if okA and okB:
+                    B.step(pts[1], forms[1], "point1") and A.step(pts[1], forms[1], "after-sibling")
+    A.finish()
+    if B is not None and not B.dead:
+        B.finish()
+    if not (A.mism or A.viol) and (B is None or not (B.mism or B.viol)):
+        A.after_scribble(pts[1 % len(pts)], forms[1 % len(pts)], "after-caller-wrote-into-results")
+    if A.nz["GG"]:
+        A.tags.append("grad_grad:non-zero")
+    r = {"nontrivial": bool(A.nz["J"] and A.nz["G"]), "mismatches": A.mism, "violations": A.viol, "tags": A.tags,
+         "sample": {"spec": spec, "point": case["points"][0]}}
+    if B is not None:
+        for v in B.viol:
+            r["violations"].append(dict(v, signature="sibling:" + v.get("signature", "")))
+        for m_ in B.mism:
+            r["mismatches"].append(dict(m_, what="sibling:" + m_["what"]))
+        r["tags"] += [tg for tg in B.tags if tg.startswith(("staged", "touch", "kept", "x:", "t:", "p:", "rejected"))]
+        if B.viol or B.mism:
+            r["sample"] = {"first": spec, "second": B.spec}
+    return r
